@@ -34,7 +34,52 @@ impl Read for FaultyReader {
     }
 }
 
+/// A writer whose flush (site 1) or write (site 2) fails with the chosen error while `armed` - but only
+/// *after* the bytes have been handed to the socket, so the peer has the request: a fault reported late
+/// (send timeout, an error surfacing at flush).
+pub struct FaultyWriter {
+    inner: UnixStream,
+    pub armed: Arc<std::sync::atomic::AtomicU32>,
+    pub kind: Arc<std::sync::atomic::AtomicU32>,
+}
+
+impl Write for FaultyWriter {
+    fn write(&mut self, buf: &[u8]) -> std::io::Result<usize> {
+        use std::sync::atomic::Ordering::SeqCst;
+        let n = self.inner.write(buf)?;
+        if self.armed.load(SeqCst) == 2 && n == buf.len() {
+            self.armed.store(0, SeqCst);
+            return Err(std::io::Error::new(FAULT_KINDS[self.kind.load(SeqCst) as usize % FAULT_KINDS.len()], "injected write fault (bytes already sent)"));
+        }
+        Ok(n)
+    }
+    fn flush(&mut self) -> std::io::Result<()> {
+        use std::sync::atomic::Ordering::SeqCst;
+        self.inner.flush()?;
+        if self.armed.load(SeqCst) == 1 {
+            self.armed.store(0, SeqCst);
+            return Err(std::io::Error::new(FAULT_KINDS[self.kind.load(SeqCst) as usize % FAULT_KINDS.len()], "injected flush fault (bytes already sent)"));
+        }
+        Ok(())
+    }
+}
+
 impl Fake {
+    /// A fake whose client-side writer can be told to report a fault after the bytes went out: returns the
+    /// fake, the `armed` selector (1: flush fails, 2: write fails) and the kind selector.
+    pub fn with_faulty_writer() -> (Fake, Arc<std::sync::atomic::AtomicU32>, Arc<std::sync::atomic::AtomicU32>) {
+        let (client, server) = UnixStream::pair().expect("socketpair");
+        let _ = client.set_read_timeout(Some(std::time::Duration::from_secs(2)));
+        let armed = Arc::new(std::sync::atomic::AtomicU32::new(0));
+        let kind = Arc::new(std::sync::atomic::AtomicU32::new(0));
+        let mut c = varlink::Connection::default();
+        let r: Box<dyn Read + Send + Sync> = Box::new(client.try_clone().expect("clone"));
+        c.reader = Some(BufReader::new(r));
+        c.writer = Some(Box::new(FaultyWriter { inner: client, armed: armed.clone(), kind: kind.clone() }));
+        server.set_nonblocking(true).expect("nonblocking");
+        (Fake { conn: Arc::new(RwLock::new(c)), server, log: vec![] }, armed, kind)
+    }
+
     /// A fake whose client-side reader can be told to fail: returns the fake, the `armed` counter and the kind selector.
     pub fn with_faulty_reader() -> (Fake, Arc<std::sync::atomic::AtomicU32>, Arc<std::sync::atomic::AtomicU32>) {
         let (client, server) = UnixStream::pair().expect("socketpair");
